@@ -394,6 +394,16 @@ fn sc_zero_fee(t: &mut Tracer) {
     w.create_farm(&o, &lp2, Some(1), Some(9), coin(8000, "uom"), Some("f5".into()), &[coin(1000, "uom")]); // declared 8000, attached 1000
     w.create_farm(&o, &lp2, Some(1), Some(9), coin(8000, "uom"), Some("f6".into()), &[coin(7999, "uom")]);
     w.create_farm(&o, &lp2, Some(1), Some(9), coin(8000, "uom"), Some("f7".into()), &[coin(8000, "uom")]);
+    // a waived fee in another denom than the reward: a coin of the fee denom sent along is an extra coin, not a fee
+    w.create_farm(&o, &lp2, Some(1), Some(9), coin(8000, "uweth"), Some("f8".into()), &[coin(1000, "uom"), coin(8000, "uweth")]);
+    // identifiers are unique across LP tokens: f1 lives on the first LP
+    w.create_farm(&o, &lp2, Some(1), Some(9), coin(8000, "uweth"), Some("f1".into()), &[coin(8000, "uweth")]);
+    w.create_farm(&o, &lp2, Some(1), Some(9), coin(8000, "uweth"), Some("f9".into()), &[coin(8000, "uweth")]);
+    let b = w.user(1);
+    w.pos_create(&b, Some("p".into()), DAY, None, &[coin(1000, lp.clone())]);
+    w.advance(2 * DAY);
+    w.claim(&b, None, &[]);
+    w.close_farm(&o, "m-f1", &[]);
 }
 
 /// C11: fee configurations and over/under payment; farm limit; expiry and auto close
